@@ -130,8 +130,7 @@ def add_pt_to(chk, r, n, **kw):
 
 # ----------------------------------------------------------------------------- PatternSearch, complete model
 
-PAT_NAME = ("whole optimizer PatternSearch (pattern list, regeneration in finish_initialization / evaluate, pop(0), window pick; the known "
-            "IndexError of an exhausted pattern is PREDICTED by the model): GFO.Model.Pattern driven through the driver model by the recorded "
+PAT_NAME = ("whole optimizer PatternSearch (pattern list, regeneration in finish_initialization / evaluate, pop(0), window pick; an exhausted pattern is regenerated in iterate - after its repair): GFO.Model.Pattern driven through the driver model by the recorded "
             "tape must emit the same positions, rows, trace, best result or the same exception, the tracker, the pattern list and consume the tape exactly")
 
 
@@ -225,7 +224,7 @@ def add_simplex_to(chk, r, n, **kw):
 
 SMBO_NAME = ("whole optimizer BayesianOptimizer / TreeStructuredParzenEstimators / ForestOptimizer / LipschitzOptimizer (X/Y training lists, candidate set with constraint "
              "filter and removal, training-failure fallback, subsampling, proposal = first row of the checked descending argsort of the acquisition "
-             "vector; the ValueError / IndexError of an exhausted candidate set, Forest's NotFittedError and Lipschitz's ValueError without a valid sample are PREDICTED): GFO.Model.SmboBackend driven through the "
+             "vector; the ValueError / IndexError of an exhausted or empty candidate set are PREDICTED; without a valid sample Forest's training fails into the random fallback and Lipschitz proposes a random position - after their repairs): GFO.Model.SmboBackend driven through the "
              "driver model by the recorded tape must emit the same positions, rows, trace, best result or the same exception, the tracker, X_sample, "
              "Y_sample, the number of candidates and consume the tape exactly")
 
